@@ -4,6 +4,9 @@ import json, os, subprocess
 HERE = os.path.dirname(os.path.abspath(__file__))
 props = [json.loads(l) for l in open(os.path.join(HERE, "properties.jsonl"))]
 CHECKS = {
+ "C13": dict(technique="metamorphic + differential runtime monitoring: each seeded macro scenario is run on the real engine with colliding spellings and with every binder spelled apart, and both are compared with a plain-substitution expander + reference machine applied to the spelled-apart text; greedy respelling attributes a divergence to the colliding roles",
+             text="Exploration: seeded scenarios of 1-13 syntax-rules definitions from 16 parametric families (temporaries, named-let loops, recursive macros, literals, ellipses, templates that use other macros, macro-defining macros, macros expanding to definitions) with 2-4 use sites inside local scopes, every identifier drawn from one pool of 16 spellings (so template binders, user variables, the templates' free globals and builtins collide all the time), run at the top level, as a module, with the JIT off and with the macros imported from a module; pattern programs (10 families: nested ellipses to depth 3, tail patterns, dotted patterns, literals, constants) with seeded argument shapes including uses that match no rule (must be rejected without panic or effect). Oracle: engine(colliding text) = engine(apart text) = reference(expand(apart text)).",
+             note="Trusted: vlib/macroexp.py (plain substitution; equals hygienic expansion when no two bindings share a spelling) and vlib/schemeref.py. Identifiers with Steel's reserved ## prefix are not generated. Local define-syntax is not supported by Steel and not generated.", ref="DESIGN.md §5 C13"),
  "C10": dict(technique="differential runtime monitoring: real engine vs Python int/Fraction/float oracle over seeded operand/shape workloads",
              text="Exploration: the real engine evaluates seeded arithmetic expressions (all operand classes x all syntactic shapes that select a different code path, JIT on and off) and every result is compared with exact Python arithmetic through a printer-independent canonical rendering. Held = no unexplained mismatch on the expressions evaluated.",
              note="Trusted: Python int/Fraction/IEEE float as the reference; harness canonical rendering (steel::verif::canon). Sampled, not exhaustive.", ref="DESIGN.md §5 C10"),
@@ -64,7 +67,6 @@ CHECKS = {
 }
 NOT_YET = "check not built yet in this session (planned in DESIGN.md §5); no claim is made"
 NA = {
- "C13": "not built: the reference hygienic expander and colliding-macro generator planned in DESIGN_plan.md §5 C13 were not implemented in the time available; the technique applies, no claim is made",
 }
 man = {
  "version": 1,
